@@ -294,6 +294,22 @@ where
 
         let support_size_minus_one = support.end().wrapping_sub(support.start()).as_();
         let max_probability = Probability::max_value() >> (Probability::BITS - PRECISION);
+
+        // Compare the size of the support to the probability budget *before* narrowing it to
+        // `Probability`: a support that is too large could otherwise wrap around to a small,
+        // valid-looking size if `Symbol` is wider than `Probability`.
+        let wide_support_size_minus_one = support
+            .end()
+            .to_i128()
+            .zip(support.start().to_i128())
+            .and_then(|(end, start)| end.checked_sub(start));
+        assert!(
+            matches!(
+                (wide_support_size_minus_one, max_probability.to_i128()),
+                (Some(size), Some(max)) if size <= max
+            ),
+            "The support is too large to assign a nonzero probability to each element."
+        );
         let free_weight = max_probability
             .checked_sub(&support_size_minus_one)
             .expect("The support is too large to assign a nonzero probability to each element.")
